@@ -346,20 +346,25 @@ def rnd_scenario_degenerate(rng, dim, axis, mode):
 
 
 def eps_absorbed_probe(ctx):
-    """monitor (not a verdict): when |max| >= ~1e9 the constructor's `max + EPSILON` rounds to `max`, and the point `max`
-    itself falls outside the last cell.  Recorded in the evidence; see notes/C14.md (round 4)."""
-    import cherab.core.math as cm
-    res = {}
-    for mx in (1e8, 1e9, 1e12):
-        c = cm.Caching1D(lambda x: 1.0 + 1e-12 * x, (0.0, mx), mx / 3.0)
-        try:
-            c(mx)
-            res[repr(mx)] = 'value'
-        except ValueError:
-            res[repr(mx)] = 'ValueError'
-        ctx.case(key=('eps-probe', mx))
-    ctx.extra['monitor_upper_edge_when_epsilon_absorbed'] = res
-    ctx.count('monitor:upper-edge-rejected-when-epsilon-absorbed', sum(1 for v in res.values() if v != 'value'))
+    """deterministic (every tier, every seed): the upper bound of an axis with max = 1e12 (max + EPSILON == max in
+    float64) is a point of the closed caching area; evaluating there must give a value.  Goes through the ordinary
+    single-point oracle, so a rejection gets the narrow signature only under conditions (a) and (b) of
+    `eps_absorbed_edge`; the lower magnitudes check that nothing is reported where epsilon is not absorbed."""
+    lin = dict(c=[0.0, 0.0, 0.0], m=[1.0, 1e-12, 0.0, 0.0, 0.0, 0.0, 0.0, 0.0], kind='multilinear')
+    for dim in (1, 2, 3):
+        for mx in (1e8, 1e9, 1e12):
+            area = [0.0, 1.0] * (dim - 1) + [0.0, mx]
+            res = [0.4] * (dim - 1) + [mx / 3.0]
+            m = [1.0] + [0.0] * 7
+            m[dim] = 1.0 / mx                       # linear along the long axis
+            sc = dict(dim=dim, area=area, res=res, nbe=False, bounds=None, points=[],
+                      fn=dict(lin, dim=dim, m=m))
+            p = tuple([0.5] * (dim - 1) + [mx])
+            fn = Fn(sc['fn'])
+            c = build(sc, fn)
+            ctx.case(key=('eps-probe', dim, mx))
+            fired = _single_point_oracle(ctx, dict(sc, points=[p]), c, fn, p)
+            ctx.count('upper-edge-probe:%dD:max=%g:%s' % (dim, mx, 'rejected' if fired else 'value'))
 
 
 def rnd_raising(rng, sc):
@@ -416,11 +421,6 @@ def classify(sc, p):
     worst = 'inside'
     for d in range(sc['dim']):
         lo, hi, v = sc['area'][2 * d], sc['area'][2 * d + 1], p[d]
-        if v == hi and hi + EPS == hi:
-            # |max| so large that max + EPSILON rounds to max: the code's half-open top cell then excludes max itself.
-            # Not judged here (see eps_absorbed_probe, which records what the code does as a monitor).
-            worst = 'band' if worst == 'inside' else worst
-            continue
         if lo <= v <= hi:
             continue
         if lo - 1.5 * EPS <= v < lo or hi < v <= hi + 1.5 * EPS:
@@ -616,6 +616,20 @@ def value_sig(sc, generic):
     return generic if (reg == 'regular' or not sc.get('fragile')) else 'precision-loss-' + reg
 
 
+def eps_absorbed_edge(sc, p):
+    """the point sits exactly on the upper bound of an axis whose `max + EPSILON` equals `max` in float64 (|max| of a few
+    1e9 and more): the constructor's epsilon extension vanishes there and the half-open last cell excludes `max`"""
+    return any(p[d] == sc['area'][2 * d + 1] and sc['area'][2 * d + 1] + EPS == sc['area'][2 * d + 1]
+               for d in range(sc['dim']))
+
+
+def inside_rejected_sig(sc, p, name):
+    """signature for a point of the caching area that was rejected with exception `name`"""
+    if name == 'ValueError' and eps_absorbed_edge(sc, p):
+        return fail_sig(sc, 'upper-edge-rejected-when-epsilon-absorbed')
+    return fail_sig(sc, '%s-inside-area%s' % (name, '' if sc.get('fragile') else ':regular-grid'))
+
+
 def fail_sig(sc, what):
     return 'C14:Caching%dD:%s' % (sc['dim'], what)
 
@@ -699,7 +713,8 @@ def s_cached(ctx, sc):
             continue
         ctx.case(key=('cached', sc['dim'], f2b(p[0])))
         if len(rec.calls) != n1 or not same_float(v1, v2):
-            ctx.fail(fail_sig(sc, 'inside-point-not-cached'),
+            ctx.fail(fail_sig(sc, 'upper-edge-rejected-when-epsilon-absorbed' if eps_absorbed_edge(sc, p)
+                              else 'inside-point-not-cached'),
                      'point %r inside the caching area %r (resolution %r, no_boundary_error=%r): evaluated twice in a row, the '
                      'second evaluation called the wrapped function %d more times (values %r, %r)'
                      % (p, sc['area'], sc['res'], sc['nbe'], len(rec.calls) - n1, v1, v2),
@@ -735,7 +750,7 @@ def s_outside(ctx, sc, results):
                 if st not in ('val',):
                     rho = far_from_origin(sc)
                     name = {'raise': 'ValueError', 'error': 'LinAlgError'}.get(st, st.replace('Other:', ''))
-                    ctx.fail(fail_sig(sc, '%s-inside-area%s' % (name, '' if sc.get('fragile') else ':regular-grid')),
+                    ctx.fail(inside_rejected_sig(sc, p, name),
                              'point %r inside the caching area %r (resolution %r) raised %s (grid: up to %.3g cells from the origin)'
                              % (p, sc['area'], sc['res'], name, rho),
                              dict(check='inside-raises', scenario=_short(sc), point=p, order=list(order)))
@@ -781,7 +796,7 @@ def s_values(ctx, sc, c, n_extra, rng):
             v = c(*p)
         except Exception as e:  # noqa
             name = type(e).__name__
-            ctx.fail(fail_sig(sc, '%s-inside-area%s' % (name, '' if sc.get('fragile') else ':regular-grid')),
+            ctx.fail(inside_rejected_sig(sc, p, name),
                      'point %r inside the caching area %r (resolution %r) raised %s' % (p, sc['area'], sc['res'], name),
                      dict(check='inside-raises', scenario=_short(sc), point=p))
             return
@@ -972,7 +987,7 @@ def _single_point_oracle(ctx, sc, c, fn, p):
         v = c(*p)
     except Exception as e:  # noqa
         name = type(e).__name__
-        ctx.fail(fail_sig(sc, '%s-inside-area%s' % (name, '' if sc.get('fragile') else ':regular-grid')),
+        ctx.fail(inside_rejected_sig(sc, p, name),
                  'point %r inside the caching area %r (resolution %r) raised %s (grid: up to %.3g cells from the origin)'
                  % (p, sc['area'], sc['res'], name, rho),
                  dict(check='inside-raises', scenario=_short(sc), point=p))
@@ -1084,11 +1099,11 @@ def run(ctx):
                     'the wrapped function is pure (same arguments -> same value)']
     ctx.assumptions += ['theorems are over an ordered field: float rounding is not modelled; S runs float-gap monitors on the real outputs',
                         'the caching area is taken to include the documented EPSILON=1e-7 extension; points within 1.5e-7 outside the area are not judged by the outside-policy oracle (counted)',
-                        'O(h^2) error bound is checked by S only (c = 1, H = largest node spacing per axis)',
-                        'a point exactly on the upper edge `max` of an axis with |max| so large that max + 1e-7 rounds to max is not judged (the code rejects it; recorded as monitor_upper_edge_when_epsilon_absorbed)']
+                        'O(h^2) error bound is checked by S only (c = 1, H = largest node spacing per axis)']
     ctx.lean_check(['Cherab.Props.C14'], 'Cherab/Audit/C14.lean')
 
     corpus_stream(ctx)
+    eps_absorbed_probe(ctx)
     drv = Drv()
     try:
         ctor_stream(ctx, drv)
@@ -1136,7 +1151,6 @@ def run(ctx):
                     c, out = run_impl(sc, o)
                     ctx.traces += k_history(ctx, drv, sc, o, c, out, 'witness ' + w['name'])
         explore_fragile(ctx, ctx.n(30, 1500))
-        eps_absorbed_probe(ctx)
         ctx.extra['driver_lines'] = drv.lines
     finally:
         drv.close()
